@@ -7,7 +7,8 @@ typedef struct bvar_s {
 	int	caller;		/* 0 = external thread, 1 = worker 0 (via a seed message), 2 = worker W-1 */
 	int	api;		/* 0 = tpt_msg_bsend_ex, 1 = tpt_msg_cbsend */
 	uint32_t flags;
-	int	notrun;		/* 0 all running; 1 thread 0 never started (skip_first); 2 last thread detached before the call */
+	int	notrun;		/* 0 all running; 1 thread 0 never started (skip_first); 2 last thread detached before the call;
+				 * 3 the caller itself ran thread 0 through tp_thread_attach_first() and was detached again */
 	int	faults;		/* write() fault menu on during the broadcast call */
 } bvar_t;
 
@@ -90,6 +91,19 @@ detach_cb(tpt_p tpt, void *udata) {
 static void
 bcast_scenario(int idx);
 
+void *
+c10_detach_sender(void *arg) {	/* queues the detach message for thread 0 as soon as the attaching thread made it sendable */
+	int i;
+	(void)arg;
+	for (i = 0; i < 50; i ++) {
+		if (0 == tpt_msg_send(tp_thread_get(tpc_tp, 0), NULL, 0, detach_cb, NULL))
+			return (NULL);
+		sc_yield("wait-for-attach");
+	}
+	sc_fail("harness", "thread 0 never became sendable");
+	return (NULL);
+}
+
 #include "c10_variants.h"	/* generated: static const bvar_t variants[]; scenario table */
 
 static void
@@ -99,10 +113,22 @@ bcast_scenario(int idx) {
 	int sync = (0 == v->api && 0 != (v->flags & F_SYNC));
 
 	cur = v;
-	tpc_up(v->W, (1 == v->notrun));
+	if (3 == v->notrun) {
+		pthread_t helper;
+		rc = tpc_create(v->W);
+		if (0 != rc) sc_fail("harness", "tp_create rc=%d", rc);
+		rc = tp_threads_create(tpc_tp, 1);
+		if (0 != rc) sc_fail("harness", "tp_threads_create rc=%d", rc);
+		pthread_create(&helper, NULL, c10_detach_sender, NULL);
+		rc = tp_thread_attach_first(tpc_tp);	/* this thread is pool thread 0 until the detach message arrives */
+		if (0 != rc) sc_fail("harness", "attach_first rc=%d", rc);
+		pthread_join(helper, NULL);
+		sc_wait_quiescent();
+	} else
+		tpc_up(v->W, (1 == v->notrun));
 	for (i = 0; i < v->W; i ++)
 		running[i] = 1;
-	if (1 == v->notrun)
+	if (1 == v->notrun || 3 == v->notrun)
 		running[0] = 0;
 	if (2 == v->notrun) {
 		rc = tpt_msg_send(tp_thread_get(tpc_tp, (size_t)(v->W - 1)), NULL, 0, detach_cb, NULL);
